@@ -7,6 +7,8 @@ package c05
 import (
 	"bytes"
 	"fmt"
+	"os"
+	"runtime/debug"
 	"sort"
 	"strings"
 	"sync"
@@ -501,6 +503,10 @@ func areas(c *fw.Ctx, scope string, hdr []byte, alpha []byte, maxLen int, ord *i
 }
 
 func Run(c *fw.Ctx) {
+	// the live heap is tiny and the allocation rate huge: collect less often
+	if os.Getenv("GOGC") == "" {
+		defer debug.SetGCPercent(debug.SetGCPercent(800))
+	}
 	c.SetRule("inputs are enumerated injectively (every string over the alphabet up to the bound after each header; every truncation/perturbation of every corpus instance in every context once); non-trivial = accepted by both the reference decoder and the library, so the typed value trees were actually compared field by field")
 	// binding of the option table to the source tree
 	if tab, err := adapt.ExtractV6OptionTable(); err != nil {
